@@ -55,6 +55,14 @@ TsChoices(code) ==
 (*   oct[m]          m = 1..M        OctopusBases(Sub(m))                   *)
 (*   ind[m]          m = 1..M        Independent(Sub(m))                    *)
 (*   reach[m]        m = 1..M        Reach(Sub(m))                          *)
+(*   cover...        every non-empty down-closed set of commits (a possible *)
+(*                   extent of a commit-graph file, complete or stale), in  *)
+(*                   increasing mask order; the answers above must be given *)
+(*                   whichever of them the repository's commit-graph covers *)
+Covers(p) == {m \in 1..M : DownClosed(p, Sub(m))}
+RECURSIVE Asc(_)
+Asc(S) == IF S = {} THEN <<>>
+          ELSE LET m == CHOOSE x \in S : \A y \in S : x <= y IN <<m>> \o Asc(S \ {m})
 GraphAnswers(p) ==
     LET A == Anc(p) IN
        [c \in C |-> Mask(A[c])]
@@ -62,6 +70,7 @@ GraphAnswers(p) ==
     \o [m \in 1..M |-> Mask(OctopusBases(A, Sub(m)))]
     \o [m \in 1..M |-> Mask(Independent(A, Sub(m)))]
     \o [m \in 1..M |-> Mask(Reach(A, Sub(m)))]
+    \o Asc(Covers(p))
 
 (* Level-2 table: commits all of whose parent edges are (strictly) monotone *)
 ClockAnswers(p, t) ==
@@ -99,4 +108,7 @@ DefsOK ==
       /\ \A a, b \in C : MergeBases(A, a, {b}) = OctopusBases(A, {a, b})
       /\ \A a \in C : \A p \in par[a] : IsAncestor(A, p, a) /\ ~ IsAncestor(A, a, p)
       /\ \A m \in 1..M : Independent(A, Sub(m)) # {} /\ Reach(A, Independent(A, Sub(m))) = Reach(A, Sub(m))
+      /\ LET G == Gen(par) IN
+           \A m \in Covers(par) : SeenThrough(par, Sub(m)) = par /\ GenerationCutoffSound(G, A, Sub(m))
+      /\ \A m \in 1..M : Mask(Reach(A, Sub(m))) \in Covers(par)
 =============================================================================
